@@ -37,6 +37,12 @@ def get_interaction_matrix(x, y):
     if y.ndim == 1:
         y = y[:, np.newaxis]
 
+    # Products of small integer types (int8, uint8, int16, ...) would wrap around silently
+    if np.issubdtype(x.dtype, np.integer):
+        x = x.astype(np.int64)
+    if np.issubdtype(y.dtype, np.integer):
+        y = y.astype(np.int64)
+
     for j1 in range(x.shape[1]):
         for j2 in range(y.shape[1]):
             l.append(x[:, j1] * y[:, j2])
